@@ -28,6 +28,7 @@ def run(tier, seed):
     # the table handed to the xlsx / json writers (cache.df_in): input-base values, converters applied to those
     from contracts import fn_pu
     items += [(fn_pu.as_dict('C13'),), (fn_pu.as_dict('C13', converter=True),)]
+    items += [(F.writer_refreshes('C13', 'xlsx'), None, F.replay_altered_dump), (F.writer_refreshes('C13', 'json'), None, F.replay_altered_dump)]
     run_contracts(pack, items)
     # F14: outside the proved precondition; confirmed natively on every run while it is listed
     name = 'C13/andes/io/matpower.py:system2mpc/requires:at-most-one-PQ-and-one-Shunt-per-bus'
